@@ -1203,6 +1203,31 @@ class SeamMonitor(object):
                 self.bad("C08", "order-dependent", "servers_of_happiness gives %r and %r for the same relation in different insertion orders: %r" % (
                     res, r2, {k: sorted(map(_nm, v)) for k, v in snap.items()}))
                 break
+        # neighbouring relations: the same servers and shares with a few holdings added or dropped (what one more lost
+        # server, one more pre-existing copy or one more answer would have produced), again in a seeded insertion order
+        servers = sorted(set(x for v in snap.values() for x in v), key=repr)
+        shares = sorted(snap)
+        if servers and shares and not any(v["clause"].startswith("C08") for v in self.viol):
+            for t in range(3):
+                m3 = {kk: set(vv) for kk, vv in snap.items()}
+                for e in range(1 + self.ch.randrange("sched", ("soh-nb-n", self.nsoh, t), 4)):
+                    sh = self.ch.pick("sched", ("soh-nb-sh", self.nsoh, t, e), shares + [max(shares) + 1])
+                    sv = self.ch.pick("sched", ("soh-nb-sv", self.nsoh, t, e), servers)
+                    if self.ch.chance("sched", ("soh-nb-add", self.nsoh, t, e), 0.65):
+                        m3.setdefault(sh, set()).add(sv)
+                    elif sh in m3:
+                        m3[sh].discard(sv)
+                        if not m3[sh]:
+                            del m3[sh]
+                order = self.ch.shuffle("sched", ("soh-nb-order", self.nsoh, t), sorted(m3))
+                m4 = {kk: set(self.ch.shuffle("sched", ("soh-nb-set", self.nsoh, t, kk), sorted(m3[kk], key=repr))) for kk in order}
+                got = self.orig_soh_util(m4)
+                want3 = matching.happiness({kk: set(vv) for kk, vv in m3.items()})
+                self.probes["servers_of_happiness-neighbour-relations"] = self.probes.get("servers_of_happiness-neighbour-relations", 0) + 1
+                if got != want3:
+                    self.bad("C08", "not-max-matching", "servers_of_happiness(%r) = %r, maximum matching = %d (a neighbour of a relation the upload produced)" % (
+                        {k: sorted(map(_nm, v)) for k, v in m3.items()}, got, want3))
+                    break
         return res
 
 
